@@ -250,6 +250,9 @@ def _inline_child(files, spec, scratch, out_path, trace_path):
         return d
 
     tempfile.mkdtemp = mkdtemp
+    # the directory is the durable state of the session: keep it, the harness reads its bytes (newlines!) afterwards
+    tempfile.TemporaryDirectory.cleanup = lambda self: None
+    tempfile.TemporaryDirectory._cleanup = classmethod(lambda cls, *a, **k: None)  # the weakref finalizer
     # simlib is importable by the exec'ed modules
     sl = types.ModuleType("simlib")
     sl.__file__ = os.path.join(tmproot, "simlib.py")
@@ -279,6 +282,9 @@ def _inline_child(files, spec, scratch, out_path, trace_path):
         ex = Example({k: v for k, v in files.items()})
         new = ex.run_inline(args, reported_categories=cats, raises=raises, changed_files=changed)
         new_files = dict(new.files)
+        d = os.path.join(tmproot, "d1")
+        if os.path.isdir(d):
+            res["files_b"] = {k: v.decode("latin-1") for k, v in read_tree(d).items() if not k.startswith(".storage")}
     except BaseException as e:
         import traceback
 
@@ -288,6 +294,7 @@ def _inline_child(files, spec, scratch, out_path, trace_path):
         d = os.path.join(tmproot, "d1")
         if os.path.isdir(d):
             new_files = {k: v.decode("utf-8", "replace") for k, v in read_tree(d).items() if not k.startswith(".storage")}
+            res["files_b"] = {k: v.decode("latin-1") for k, v in read_tree(d).items() if not k.startswith(".storage")}
     res["files"] = new_files
     res["categories"] = sorted(cats.value) if cats.seen else None
     res["raises"] = raises.value if raises.seen else None
